@@ -15,6 +15,9 @@ pub mod pg {
 use vstd::prelude::*;
 use vstd::std_specs::cmp::*;
 // ---- stand-in for the part of petgraph 0.6 that dfa.rs uses (assumed contracts on a dependency) ----
+// Ghost view: edges() maps a pair of states to ONE label.  Adequate for the trie (unit `trie` proves that add_new_state always targets a fresh node, so no
+// two edges ever join the same pair).  The graph rebuilt by recreate_graph can have parallel edges ("ac", "bc"): there edges() keeps the last label only, and
+// unit `dfa` claims nothing but the EXISTENCE of the copied edges and the accepting marks.
 pub struct NodeIndex<Ix = u32> { pub ix: Ix }
 pub struct EdgeIndex<Ix = u32> { pub ix: Ix }
 impl Copy for NodeIndex<u32> {}
